@@ -24,9 +24,7 @@ Theorem C12_header : forall cfg c p name ln bases kws body decs es,
     find_inner (c_nsp c) name ln = Some cn /\ n_kind cn = NClass /\
     rmap (tr (c_nsp c)) bases = inl bases' /\
     rmap (fun kw => rbind (tr (c_nsp c) (snd kw)) (fun v => ret (fst kw, v))) kws = inl kws' /\
-    get_assign (c_nsp c) name
-      (Call (match rev (filter is_meta_kw kws') with kw :: _ => snd kw | [] => Name "type" end)
-            [cstr name; ETuple bases'; EDict [] []] (filter (fun kw => negb (is_meta_kw kw)) kws')) = inl create /\
+    get_assign (c_nsp c) name (class_create p name bases' kws') = inl create /\
     get_load_name (c_nsp c) [] false name = inl load /\
     es = create :: rest.
 Proof. exact classdef_shape. Qed.
